@@ -253,4 +253,49 @@ def urlattr2 (elem attr p a mid b : Bytes) (real : List String) : String :=
     else "pass"
   | _ => "fail:unparsable-real-result"
 
+/-- cut `s` at the first occurrence of `sep` -/
+def cutAt (sep : Bytes) : Bytes → Option (Bytes × Bytes)
+  | [] => if sep.isEmpty then some ([], []) else none
+  | c :: t =>
+    if sep.isPrefixOf (c :: t) then some ([], (c :: t).drop sep.length)
+    else (cutAt sep t).map fun r => (c :: r.1, r.2)
+
+/-- `<elem attr="P{{range .L}}{{.}}M{{end}}">` with L = [x, y] (M contains "~~", the items do not): the value is
+    P e₁ M e₂ M. The SECOND item is emitted after the static text P·M; when that text has put the URL into its query or
+    fragment part the item must be fully percent-encoded. The engine keeps the sanitizers chosen on the first pass
+    (prefix P only): known finding `range-reentry-prefix`. -/
+def urlrange (elem attr p mid _x _y : Bytes) (real : List String) : String :=
+  match ctxOf elem attr with
+  | none => "fail:unknown-template"
+  | some ctx =>
+  match real with
+  | ["ok", h] =>
+    match unhex h with
+    | none => "fail:unparsable-real-result"
+    | some out =>
+    let opening := [60] ++ elem ++ [32] ++ attr ++ [61, 34]
+    match (stripPrefix? opening out).bind (stripSuffix? (closing elem)) with
+    | none => "fail:output-shape"
+    | some val =>
+    if val.contains 34 then "fail:quote-in-attribute-value" else
+    if ctx == .other then "pass" else
+    match stripPrefix? p val with
+    | none => "fail:output-shape"
+    | some rest =>
+      match cutAt mid rest with
+      | none => "pass"                      -- fewer than one item rendered
+      | some (_e1, r2) =>
+        match cutAt mid r2 with
+        | none => "pass"
+        | some (e2, _) =>
+          let before := CharRef.decodeAttr (p ++ mid)
+          let bd := CharRef.decodeAttr val
+          if whatwgScheme bd == some javascript then "fail:javascript-scheme"
+          else if (before.contains 63 || before.contains 35) && !unreservedOrPct (CharRef.decodeAttr e2) then
+            (if p.contains 63 || p.contains 35 || (CharRef.decodeAttr p).contains 63 || (CharRef.decodeAttr p).contains 35 then
+               "fail:range-item-not-escaped-in-query"
+             else "fail:range-item-not-escaped-in-query:range-reentry-prefix")
+          else "pass"
+  | _ => "pass"
+
 end SafeHtml.Oracle.C14
